@@ -64,10 +64,10 @@ execute(const Case &c, bool trace)
   snprintf(b, sizeof b,
            "OUTCOME probe_collision=%d probe_wrapped=%d waited_full=%d reuse_in_cleanup=%d reuse_after_exit=%d claim_overlaps_exit=%d "
            "fwd_with_foreign_guard=%d thread_churn=%d quiescent_after_pinned=%d boundary_crossed=%d fwd_inside_getprotected=%d "
-           "node_retired_under_guard=%d ids=%d guards=%d forwards=%d skipped=%d executed=%d steps=%lu\n",
+           "node_retired_under_guard=%d ids=%d guards=%d forwards=%d skipped=%d executed=%d excluded=%d steps=%lu\n",
            o.probe_collision, o.probe_wrapped, o.waited_full, o.reuse_in_cleanup, o.reuse_after_exit, o.claim_overlaps_exit, o.fwd_with_foreign_guard,
            o.thread_churn, o.quiescent_after_pinned, o.boundary_crossed, o.fwd_inside_getprotected, o.node_retired_under_guard, o.ids_issued, o.guards,
-           o.forwards, o.skipped, o.executed, vsched::stats().steps);
+           o.forwards, o.skipped, o.executed, o.excluded_known, vsched::stats().steps);
   emit(b);
   emit(std::string("VERDICT ") + (vsched::reports().empty() ? "ok" : "REPORTS") + " phase=" + std::to_string(g_phase) + "\n");
   return vsched::reports().empty() ? 0 : 10;
@@ -78,14 +78,14 @@ parse_outcome(const std::string &out, Outcome &o, uint64_t &steps)
 {
   const auto pos = out.find("OUTCOME ");
   if (pos == std::string::npos) return false;
-  int v[17] = {};
+  int v[18] = {};
   unsigned long st = 0;
   const int n = sscanf(out.c_str() + pos,
                        "OUTCOME probe_collision=%d probe_wrapped=%d waited_full=%d reuse_in_cleanup=%d reuse_after_exit=%d claim_overlaps_exit=%d "
                        "fwd_with_foreign_guard=%d thread_churn=%d quiescent_after_pinned=%d boundary_crossed=%d fwd_inside_getprotected=%d "
-                       "node_retired_under_guard=%d ids=%d guards=%d forwards=%d skipped=%d executed=%d steps=%lu",
-                       &v[0], &v[1], &v[2], &v[3], &v[4], &v[5], &v[6], &v[7], &v[8], &v[9], &v[10], &v[11], &v[12], &v[13], &v[14], &v[15], &v[16], &st);
-  if (n < 18) return false;
+                       "node_retired_under_guard=%d ids=%d guards=%d forwards=%d skipped=%d executed=%d excluded=%d steps=%lu",
+                       &v[0], &v[1], &v[2], &v[3], &v[4], &v[5], &v[6], &v[7], &v[8], &v[9], &v[10], &v[11], &v[12], &v[13], &v[14], &v[15], &v[16], &v[17], &st);
+  if (n < 19) return false;
   o.probe_collision = v[0];
   o.probe_wrapped = v[1];
   o.waited_full = v[2];
@@ -103,6 +103,7 @@ parse_outcome(const std::string &out, Outcome &o, uint64_t &steps)
   o.forwards = v[14];
   o.skipped = v[15];
   o.executed = v[16];
+  o.excluded_known = v[17];
   steps = st;
   return true;
 }
@@ -225,6 +226,7 @@ main(int argc, char **argv)
       C.steps += steps;
       C.skipped_ops += oc.skipped;
       C.executed_ops += oc.executed;
+      C.excluded_known += oc.excluded_known;
       std::vector<std::string> labels;
       const bool nt = threadgen::classify(profile, c, oc, labels);
       for (auto &l : labels) C.labels[l]++;
